@@ -89,7 +89,11 @@ def gen_rule(rng, chains):
         o.append((False, '--log-level', [rng.choice(['debug', '7', 'info'])]))
     else:
         o.append((False, '-j', ['MARK']))
-        o.append((False, '--set-mark', [rng.choice(['10', '0xa', '255', '0x1F'])]))
+        if rng.random() < 0.7:
+            o.append((False, '--set-mark', [rng.choice(['10', '0xa', '255', '0x1F'])]))
+        else:
+            # xmark: without mask or with the default mask it is set-mark; any other mask is something else
+            o.append((False, '--set-xmark', [rng.choice(['0xa', '0x1F/0xFFFFFFFF', '0x1/0xff', '0xa/0xf0', '0xa/0xffff'])]))
     return o
 
 
@@ -117,6 +121,9 @@ def render_rule(chain, opts, rng=None, kernel=False):
             if k == '--set-mark':
                 args = ['0x%x/0xffffffff' % int(args[0], 0)]
                 k = '--set-xmark'
+            elif k == '--set-xmark':
+                v, _, m = args[0].partition('/')
+                args = ['0x%x/0x%x' % (int(v, 0), int(m, 0) if m else 0xffffffff)]
             if k == '--log-level' and args[0] == 'debug':
                 args[0] = '7'
             if k == '--syn' and neg:
@@ -179,7 +186,12 @@ def edit_tables(rng, tabs):
         j = rng.randrange(len(r))
         neg, k, args = r[j]
         m = rng.random()
-        if m < 0.3:
+        marks = [x for x in range(len(r)) if r[x][1] == '--set-mark']
+        if marks and rng.random() < 0.5:
+            # the same value written with a mask that is not the default one
+            x = marks[0]
+            r[x] = (False, '--set-xmark', ['0x%x/0xff' % int(r[x][2][0], 0)])
+        elif m < 0.3:
             r[j] = (not neg, k, args)
         elif m < 0.6 and args:
             r[j] = (neg, k, [args[0] + '9'] + list(args[1:]))
@@ -215,6 +227,10 @@ def sem_norm(tabs):
             a[0] = x
         if k == '--state':
             a[0] = ','.join(sorted(a[0].split(',')))
+        if k == '--set-xmark':
+            v, _, m = a[0].partition('/')
+            if not m or m.lower() == '0xffffffff':
+                k, a[0] = '--set-mark', v
         if k == '--set-mark':
             a[0] = str(int(a[0], 0))
         if k == '--log-level' and a[0] == 'debug':
